@@ -161,7 +161,8 @@ def forced_suite(ctx, vh, queue):
         r = rows[i]
         ctx.fail_or_known(None,
                           "%s: under the forced schedule a poll is left waiting / answers empty while packets "
-                          "are queued, or packets are lost, duplicated or reordered: %s" % (qname, describe(r)),
+                          "are queued (or while a close is pending / after close()), or packets are lost, "
+                          "duplicated or reordered: %s" % (qname, describe(r)),
                           {"kind": "failing-input", "engine": "queues", "queue": queue, "nc": r["nc"],
                            "ops": r["ops"], "observed": r["obs"],
                            "replay_cmd": "vh queues -mode forced -queue %s -nc %d -only '%s'"
